@@ -262,7 +262,7 @@ var csvEncSig = map[string]string{
 	"duration": "decimal((time.Duration).Nanoseconds(F))|decimal(F)",
 	"string":   "F",
 	"bytes":    "(*encoding/base64.Encoding).EncodeToString(*StdEncoding,F)",
-	"header":   "(*encoding/base64.Encoding).EncodeToString(*StdEncoding,lib.headerBytes(F))",
+	"header":   "(*encoding/base64.Encoding).EncodeToString(*StdEncoding,WIRE(F))",
 }
 
 // c07CSV checks the CSV column tables; returns the fields handled by encoder and decoder.
@@ -307,6 +307,21 @@ func c07CSV(c *Ctx, res *types.Named) (encF, decF map[string]bool) {
 		encF[f] = true
 		sig := strings.ReplaceAll(describeVal(col), "arg0."+f, "F")
 		want := csvEncSig[typeClass(ftype[f])]
+		if typeClass(ftype[f]) == "header" {
+			// the wire-format helper is recognised by what it does, not by its name
+			flowsFrom(col, func(v ssa.Value) bool {
+				if call, isCall := v.(*ssa.Call); isCall {
+					if g := call.Call.StaticCallee(); g != nil && g.Pkg == enc.Pkg {
+						if why, okW := isHeaderWireWriter(g); okW {
+							sig = strings.ReplaceAll(sig, shortFn(g)+"(", "WIRE(")
+						} else if why != "" {
+							c.Fail("csv-column:header-wire:"+shortFn(g), rCol, why, c.fnAt(g))
+						}
+					}
+				}
+				return false
+			})
+		}
 		sig = normDecimal(sig)
 		okSig := false
 		for _, w := range strings.Split(want, "|") {
@@ -522,8 +537,12 @@ func csvDecodeConv(dec *ssa.Function, loads []ssa.Value, st *ssa.Store, tc strin
 		return "StdEncoding.DecodeString", true
 	case "header":
 		hasB64, hasMIME := false, false
+		rewrite := ""
 		flowsFrom(st.Val, func(v ssa.Value) bool {
 			if call, ok := v.(*ssa.Call); ok {
+				if n := callName(&call.Call); strings.HasPrefix(n, "strings.") && n != "strings.NewReader" {
+					rewrite = n
+				}
 				switch callName(&call.Call) {
 				case "encoding/base64.NewDecoder":
 					if describeVal(call.Call.Args[0]) == "*StdEncoding" {
@@ -538,9 +557,49 @@ func csvDecodeConv(dec *ssa.Function, loads []ssa.Value, st *ssa.Store, tc strin
 		if !hasB64 || !hasMIME {
 			return "headers are not base64(StdEncoding)-decoded and parsed with ReadMIMEHeader", false
 		}
+		if rewrite != "" {
+			return "the parsed header values are rewritten with " + rewrite + " before they are stored (a value containing the separator no longer round-trips)", false
+		}
 		return "base64.NewDecoder(StdEncoding) → ReadMIMEHeader", true
 	}
 	return "no frozen conversion for " + tc, false
+}
+
+// isHeaderWireWriter: g(h http.Header) serialises exactly its parameter with http.Header.Write
+// (one line per value, so values containing commas or repeated fields survive) and does not
+// rewrite keys or values with string functions.
+func isHeaderWireWriter(g *ssa.Function) (string, bool) {
+	if len(g.Params) != 1 || !isNamedType(g.Params[0].Type(), "net/http", "Header") {
+		return "", false
+	}
+	ws := callsNamed(g, "(net/http.Header).Write", "(net/http.Header).WriteSubset")
+	if len(ws) != 1 {
+		return fmt.Sprintf("%s: %d http.Header.Write calls; the headers column must be the wire format of the result's headers", shortFn(g), len(ws)), false
+	}
+	recv := ws[0].(*ssa.Call).Call.Args[0]
+	for {
+		if ct, ok := recv.(*ssa.ChangeType); ok {
+			recv = ct.X
+			continue
+		}
+		break
+	}
+	if recv != ssa.Value(g.Params[0]) {
+		return shortFn(g) + " serialises " + describeVal(recv) + " instead of the result's own headers (folded, filtered or rewritten header values do not survive the round trip)", false
+	}
+	rewrites := ""
+	eachInstr(g, func(i ssa.Instruction) {
+		if ci, ok := i.(ssa.CallInstruction); ok {
+			n := callName(ci.Common())
+			if strings.HasPrefix(n, "strings.") && n != "strings.NewReader" {
+				rewrites = n
+			}
+		}
+	})
+	if rewrites != "" {
+		return shortFn(g) + " rewrites header text with " + rewrites, false
+	}
+	return "", true
 }
 
 var csvDocPhrases = []struct{ phrase, field string }{
